@@ -30,3 +30,52 @@ Fixpoint needs_clamp (t : ty) : bool :=
   | TBytesM m => negb (m =? 32)
   | TBool | TAddress | TDecimal => true
   end.
+
+(* ---------- memory payloads (abi_decode, returndata): every item footprint must lie inside [0, hi) ----------
+   [inb t bs loc hi]: the bound checks both code generators perform when the source is MEMORY
+   (`hi` discipline): complex item  loc + static_size <= hi;  byte string  loc + 32 + len <= hi;
+   dynamic array  loc + 32 + count * elem_head <= hi;  pointer arithmetic must not wrap (here:
+   unbounded Z positions, anything past hi is rejected).  Word-sized members are covered by the
+   footprint of the complex item that contains them. *)
+Definition inb_t := list Z -> Z -> Z -> bool.
+Fixpoint inb_seq (cs : list (bool * Z * inb_t)) (bs : list Z) (loc hi ho : Z) : bool :=
+  match cs with
+  | [] => true
+  | (dyn, hs, f) :: r =>
+      if (if dyn : bool then f bs (loc + rd bs (loc + ho)) hi else f bs (loc + ho) hi)
+      then inb_seq r bs loc hi (ho + hs) else false
+  end.
+Fixpoint inb (t : ty) : inb_t := fun bs loc hi =>
+  match t with
+  | TBytes b | TString b =>
+      let n := rd bs loc in if n <=? b then loc + 32 + n <=? hi else false
+  | TSArr t' n =>
+      if loc + static_size t <=? hi
+      then inb_seq (repeat (is_dynamic t', emb_static t', inb t') (Z.to_nat n)) bs loc hi 0 else false
+  | TDArr t' b =>
+      let n := rd bs loc in
+      if n <=? b then
+        if loc + 32 + n * emb_static t' <=? hi
+        then inb_seq (repeat (is_dynamic t', emb_static t', inb t') (Z.to_nat n)) bs (loc + 32) hi 0 else false
+      else false
+  | TTuple ts =>
+      if loc + static_size t <=? hi
+      then inb_seq (map (fun t' => (is_dynamic t', emb_static t', inb t')) ts) bs loc hi 0 else false
+  | _ => true
+  end.
+
+(* abi_decode(b, T): static_size <= len(b) <= size_bound, hi = len(b) *)
+Definition accept_mem (t : ty) (payload : list Z) : option val :=
+  let L := zlen payload in
+  if (static_size t <=? L) && (L <=? size_bound t) then
+    if inb t payload 0 L then dec_at t payload 0 else None
+  else None.
+
+(* external call return data: returndatasize >= static_size, hi = min(returndatasize, size_bound);
+   what lies beyond hi in the buffer is stale memory, never the payload *)
+Definition accept_ret (t : ty) (payload : list Z) : option val :=
+  let L := zlen payload in
+  if L <? static_size t then None
+  else let hi := Z.min L (size_bound t) in
+       let p := firstn (Z.to_nat hi) payload in
+       if inb t p 0 hi then dec_at t p 0 else None.
